@@ -162,6 +162,10 @@ class BaseConnection(object):
         '''Return whether the connection is closed.'''
         return not self.writer or not self.reader or self.reader.at_eof()
 
+    def has_unread_data(self) -> bool:
+        '''Return whether bytes received from the peer are waiting unread.'''
+        return bool(self.reader and getattr(self.reader, '_buffer', None))
+
     def state(self) -> ConnectionState:
         '''Return the state of this connection.'''
         return self._state
